@@ -29,4 +29,8 @@ def run(ctx):
     executor_check.failstop_part(ctx)
 
 
-replay = replay_execution
+def replay(d):
+    if (d.get("replay") or {}).get("kind") == "batcher":
+        from checks import batcher_failstop
+        return batcher_failstop.replay(d)
+    return replay_execution(d)
